@@ -38,8 +38,8 @@ class MySQLValueWrapper(ValueWrapper):
             value = value.replace(tzinfo=None)
             return format_quotes(value.isoformat(), quote_char)
         elif isinstance(value, (dict, list)):
-            value = format_quotes(json.dumps(value), quote_char)
-            return value.replace("\\", "\\\\")
+            value = json.dumps(value).replace(quote_char, quote_char * 2)
+            return format_quotes(value.replace("\\", "\\\\"), quote_char)
         return super().get_value_sql(ctx)
 
 
@@ -152,7 +152,9 @@ class MySQLLoadQueryBuilder:
         return querystring
 
     def _load_file_sql(self, ctx: SqlContext) -> str:
-        return "LOAD DATA LOCAL INFILE '{}'".format(self._load_file)
+        return "LOAD DATA LOCAL INFILE '{}'".format(
+            str(self._load_file).replace("\\", "\\\\").replace("'", "''")
+        )
 
     def _into_table_sql(self, ctx: SqlContext) -> str:
         table = cast(Table, self._into_table)
